@@ -307,6 +307,19 @@ def run(tier="quick", seed=1, work=None, replay=None, focus="C01", ncases=None):
                 stale_dir_named_like_working_file(rep, contents, ci, seed, work, rng)
             if focus == "C07" and ci % 2 == 0:
                 src, dst, flags, cfg, env, excl, cls = gen_c07_case(rng); rep.tag("c07." + cls)
+            elif focus in ("C01", "C10", "C19") and ci % 25 == 17:
+                # targeted (seeded change C10d): a regular FILE in the destination where the source has an EMPTY directory, and nothing else
+                # that could fail — the creation of the directory must fail visibly (exit non-zero, an error record), never "succeed" because
+                # something already exists at the path
+                flags, cfg, opts, env, excl = gen_flags(rng, "plain", caps)
+                flags = [x for x in flags]; excl = []
+                while "--exclude" in flags: i_ = flags.index("--exclude"); del flags[i_:i_ + 2]
+                for k_ in ("min", "max"):
+                    fl_ = "--%s-size" % k_
+                    if fl_ in flags: i_ = flags.index(fl_); del flags[i_:i_ + 2]; cfg.pop(k_, None)
+                src = {"keep.txt": F(b"keep"), "spool": D(), "full": D(), "full/a": F(rng.bytes(rng.range(1, 60)))}
+                dst = {"keep.txt": F(b"old", BASE_T * 10**9 - 50 * 10**9), "spool": F(b"a file where the source has an empty directory"), "full": D()}
+                rep.tag("targeted.file-where-empty-dir")
             elif focus in ("C01", "C06", "C16") and ci % 25 == 11:
                 # targeted: excluded directories next to siblings whose names merely START with the directory's name (byte-wise
                 # prefix, no separator): the siblings and everything below them stay selected whatever the walk order is
@@ -814,15 +827,22 @@ def oracles(rep, focus, desc, rc, ev, bad, summ, real_events, real_errors, pre_s
         for rel in sel:
             s = pre_src[rel]; d = post_dst.get(rel); p = pre_dst.get(rel)
             if s["k"] == "d":
-                if d is None or d["k"] != "d": rep.oracle_fail("C01/selected-dir-missing", f"selected directory {rel} not a directory in the destination", desc)
+                if d is None or d["k"] != "d":
+                    rep.oracle_fail("C01/selected-dir-missing", f"selected directory {rel} not a directory in the destination", desc)
+                    # C10's last sentence: exit status 0 implies the postcondition of C01 (decided by C10's own check too)
+                    rep.oracle_fail("C10/exit-zero-but-dir-missing", f"exit 0 but the selected directory {rel} is not a directory in the destination", desc)
             elif s["k"] == "f":
-                if d is None or d["k"] != "f": rep.oracle_fail("C01/selected-file-missing", f"selected file {rel} missing or not a regular file", desc); continue
+                if d is None or d["k"] != "f":
+                    rep.oracle_fail("C01/selected-file-missing", f"selected file {rel} missing or not a regular file", desc)
+                    rep.oracle_fail("C10/exit-zero-but-file-missing", f"exit 0 but the selected file {rel} is missing or not a regular file", desc); continue
                 cmpm = cfg.get("cmp", "d")
                 differed = (p is None or p["k"] != "f" or
                             (cmpm == "d" and (p["size"] != s["size"] or mtime_differs(p["mtime"], s["mtime"]))) or
                             (cmpm == "c" and p["cid"] != s["cid"]) or cmpm == "i" or (cmpm == "s" and p["size"] != s["size"]))
                 if differed:
-                    if d["cid"] != s["cid"]: rep.oracle_fail("C01/content-differs", f"{rel} absent-or-differing before, not byte-identical after a successful run", desc)
+                    if d["cid"] != s["cid"]:
+                        rep.oracle_fail("C01/content-differs", f"{rel} absent-or-differing before, not byte-identical after a successful run", desc)
+                        rep.oracle_fail("C10/exit-zero-but-content-wrong", f"exit 0 but {rel} is not byte-identical to its source", desc)
                     elif d["mtime"] != s["mtime"]: rep.oracle_fail("C01/mtime-not-carried", f"{rel} transferred but mtime {d['mtime']} != source {s['mtime']}", desc)
                     want = s["xattrs"] if cfg.get("x") else {}
                     if d["xattrs"] != want: rep.oracle_fail("C17/xattrs-" + ("missing" if cfg.get("x") else "copied-without-X"), f"{rel}: user xattrs {sorted(d['xattrs'])} expected {sorted(want)}", desc)
